@@ -11,10 +11,16 @@ class CallTimeout(BaseException):
 def limit(seconds):
     def handler(signum, frame):
         raise CallTimeout()
+    # The budget is processor time of this process (ITIMER_PROF), so that a machine busy with other work cannot turn a
+    # call that terminates into a timeout; a generous wall-clock limit backs it up (a call that sleeps forever).
     old = signal.signal(signal.SIGALRM, handler)
-    signal.setitimer(signal.ITIMER_REAL, seconds)
+    oldp = signal.signal(signal.SIGPROF, handler)
+    signal.setitimer(signal.ITIMER_PROF, seconds)
+    signal.setitimer(signal.ITIMER_REAL, seconds * 20 + 30)
     try:
         yield
     finally:
+        signal.setitimer(signal.ITIMER_PROF, 0)
         signal.setitimer(signal.ITIMER_REAL, 0)
         signal.signal(signal.SIGALRM, old)
+        signal.signal(signal.SIGPROF, oldp)
